@@ -17,21 +17,21 @@ theorem C01_C08_cde {data : JS.J} {o : Opts} {parts : List CD.Part} {courses : L
     (hlen : ∀ rdata, (data.get "registrations").bind JS.J.asObject = some rdata →
       ∀ kv ∈ rdata, ∀ chs, regChoices kv.2 amb.trackId = some chs → chs.length ≤ N2.WEIGHT + 1)
     (top T : Nat) :
-    letI := solverOf (toInst parts courses rooms) R
+    letI := solverOf (toInstR parts courses rooms) R
     ∀ c : Eng3.Cfg Node (List (Option Nat)),
       Eng3.Reach rootNode top T c → ∀ al, c.best = some al →
-      ∃ a : Nat → Option Nat, al = (List.range (toInst parts courses rooms).P).map a ∧
-        G.HardOK (toInst parts courses rooms) a ∧ c.bestScore = G.scoreOf (toInst parts courses rooms) a :=
-  C01_C08_engine (toInst parts courses rooms) R (read_instOK2_of_len h rooms hlen).1 top T
+      ∃ a : Nat → Option Nat, al = (List.range (toInstR parts courses rooms).P).map a ∧
+        G.HardOK (toInstR parts courses rooms) a ∧ c.bestScore = G.scoreOf (toInstR parts courses rooms) a :=
+  C01_C08_engine (toInstR parts courses rooms) R (read_instOK2_of_len h rooms hlen).1 top T
 
 /-- and no node of the search tree makes the solver panic (C10 on the CdE path) -/
 theorem C10_cde {data : JS.J} {o : Opts} {parts : List CD.Part} {courses : List CD.Course} {amb : Ambience}
     (h : CD.read data o = .ok (parts, courses, amb)) (rooms : Option (List Nat)) (R : RoomFns)
     (hlen : ∀ rdata, (data.get "registrations").bind JS.J.asObject = some rdata →
       ∀ kv ∈ rdata, ∀ chs, regChoices kv.2 amb.trackId = some chs → chs.length ≤ N2.WEIGHT + 1) :
-    letI := solverOf (toInst parts courses rooms) R
+    letI := solverOf (toInstR parts courses rooms) R
     ∀ f : Node, Eng3.Desc f rootNode → Eng3.Solver.res f ≠ (Eng3.Res.panic : Eng3.Res (List (Option Nat))) :=
-  tree_no_panic (toInst parts courses rooms) R (read_instOK2_of_len h rooms hlen).1.toInstOK
+  tree_no_panic (toInstR parts courses rooms) R (read_instOK2_of_len h rooms hlen).1.toInstOK
     (read_instOK2_of_len h rooms hlen).2
 
 end Props
